@@ -13,6 +13,7 @@ from liquid2 import TokenStream
 from liquid2 import TokenType
 from liquid2.builtin import parse_primitive
 from liquid2.builtin import parse_string_or_identifier
+from liquid2.builtin import string_or_identifier_str
 from liquid2.exceptions import LiquidSyntaxError
 from liquid2.stringify import to_liquid_string
 
@@ -38,7 +39,9 @@ class CycleNode(Node):
 
     def __str__(self) -> str:
         assert isinstance(self.token, TagToken)
-        name = f"{self.name}: " if self.name else ""
+        name = (
+            f"{string_or_identifier_str(self.name)}: " if self.name is not None else ""
+        )
         items = ", ".join(str(i) for i in self.items)
         return f"{{%{self.token.wc[0]} cycle {name}{items} {self.token.wc[1]}%}}"
 
